@@ -2,7 +2,7 @@
 from props import funcs_common as FC
 from gens.programs import Opts
 
-THEOREMS = []
+THEOREMS = ['vector_table_documented', 'loopfree_analysis_is_calculus']
 RULE = ('generated C functions of the supported fragment (assignments of variables/constants/binary ops with all '
         'aliasing patterns, unary/cast sugar, if/else, while, do-while, counted for, nested <=3 deep, <=6 binary '
         'operations so that all 3^k choice vectors are tabulated) plus a corpus of past witnesses, each x {fin} x '
